@@ -24,7 +24,6 @@ import (
 	"unicode/utf8"
 
 	"github.com/foxcpp/maddy/framework/dns"
-	"golang.org/x/net/idna"
 	"golang.org/x/text/secure/precis"
 	"golang.org/x/text/unicode/norm"
 )
@@ -79,7 +78,7 @@ func CleanDomain(addr string) (string, error) {
 		return addr, err
 	}
 
-	uDomain, err := idna.ToUnicode(dns.LowerALabels(domain))
+	uDomain, err := dns.ALabelsToUnicode(domain)
 	if err != nil {
 		return addr, err
 	}
